@@ -28,9 +28,9 @@ func (s Step) String() string {
 
 // Config is the configuration part of a case.
 type Config struct {
-	N          int   `json:"n"`                    // initial clients
-	Interval   int64 `json:"interval"`             // project snapshot interval
-	Threshold  int64 `json:"threshold"`            // project snapshot threshold
+	N          int   `json:"n"`                     // initial clients
+	Interval   int64 `json:"interval"`              // project snapshot interval
+	Threshold  int64 `json:"threshold"`             // project snapshot threshold
 	ClientNoGC bool  `json:"client_nogc,omitempty"` // document.WithDisableGC on every document
 	ServerNoGC bool  `json:"server_nogc,omitempty"` // backend SnapshotDisableGC
 	// NoPresence: the first attacher creates the document presenceless.
@@ -168,8 +168,16 @@ func Gen(o GenOpts) *rapid.Generator[Program] {
 		if len(o.Kinds) > 0 {
 			// Focus: a program edits a drawn subset of the element kinds so
 			// that edits collide densely on the same containers.
-			mask := rapid.IntRange(1, (1<<len(o.Kinds))-1).Draw(t, "kinds")
-			if rapid.IntRange(0, 3).Draw(t, "allkinds") == 0 {
+			// 40 % one kind, 25 % two kinds, 20 % a random subset, 15 % all kinds
+			mask := 0
+			switch x := rapid.IntRange(0, 19).Draw(t, "focus"); {
+			case x < 8:
+				mask = 1 << rapid.IntRange(0, len(o.Kinds)-1).Draw(t, "kind1")
+			case x < 13:
+				mask = 1<<rapid.IntRange(0, len(o.Kinds)-1).Draw(t, "kind1") | 1<<rapid.IntRange(0, len(o.Kinds)-1).Draw(t, "kind2")
+			case x < 17:
+				mask = rapid.IntRange(1, (1<<len(o.Kinds))-1).Draw(t, "kinds")
+			default:
 				mask = (1 << len(o.Kinds)) - 1
 			}
 			editOps = nil
